@@ -481,6 +481,11 @@ fn oracle(sc: &Scenario, recs: &[Record], raises: &[Vec<usize>], end: &RunEnd) -
             // spent) is not part of the property.
             (Expect::Timeout, Obs::Timeout(_)) => {}
             (Expect::Crashed, Obs::Crashed) => {}
+            // A payload that exhausts the child's memory can kill the child before
+            // the request is fully written; "failed to write to child" names that
+            // as well as "child crashed" does.
+            (Expect::Crashed, Obs::Other(s))
+                if matches!(req.op, Op::Large(..)) && s.starts_with("Failed to write to child") => {}
             (want, got) => {
                 return Some(Violation {
                     clause: "wrong-error".into(),
